@@ -136,6 +136,16 @@ def eval_app(v, env):
     if fn in ("floor", "ceil", "trunc"):
         g = {"floor": math.floor, "ceil": math.ceil, "trunc": math.trunc}[fn]
         return _bcast(lambda x: Fraction(g(_num(x))), E(0))
+    if fn in ("floordiv", "mod") and len(a) == 2:
+        import math as _m
+
+        def fd(x, y):
+            x, y = _num(x), _num(y)
+            if y == 0:
+                raise CannotEvaluate("division by zero")
+            q = _m.floor(Fraction(x) / Fraction(y))
+            return Fraction(q) if fn == "floordiv" else Fraction(x) - Fraction(y) * q
+        return _bcast(fd, E(0), E(1))
     if fn == "abs":
         return _bcast(lambda x: abs(_num(x)), E(0))
     if fn in ("lt0", "le0", "eq0", "ne0"):
